@@ -71,7 +71,103 @@ fn report_failure(args: &Args, rep: &mut Report, ast: &OpeningHoursExpression, h
     rep.violation("normalization_changes_meaning", format!("{text:?} [{}]: {what}", hol.to_string()), json!({"expr": text, "holidays": hol.to_string()}), known);
 }
 
+/// Size family: K pairwise different rules (own year, weekday and minutes) followed by one rule of
+/// another kind that overlaps many of them, K on a ladder 1..64, then 2^k - 1, 2^k, 2^k + 1 up to
+/// 4097: thresholds on the number of rules of the input or of the normal form are crossed one rung
+/// at a time. `text` is generated from (K, variant), so a replay is self-contained.
+pub fn many_rules_text(k: usize, variant: u64) -> String {
+    let wds = ["Mo", "Tu", "We", "Th", "Fr", "Sa", "Su"];
+    let sep = |i: usize| match variant {
+        0 => ", ",
+        1 => " ; ",
+        _ => [", ", " ; ", ", "][i % 3],
+    };
+    let mut text = String::new();
+    for i in 0..k {
+        let m = (i * 7) % 1380;
+        if i > 0 {
+            text += sep(i);
+        }
+        text += &format!("{} {} {:02}:{:02}-{:02}:{:02}", 1900 + i, wds[i % 7], m / 60, m % 60, (m + 3) / 60, (m + 3) % 60);
+    }
+    text + ["; Mo 23:00-23:30 unknown", ", Mo-We 23:00-23:30 unknown", " || Tu 23:10-23:20 unknown"][(variant % 3) as usize]
+}
+
+pub fn check_many_rules(k: usize, variant: u64) -> Result<usize, String> {
+    use chrono::{Datelike, Duration, NaiveDate, Weekday};
+    let text = many_rules_text(k, variant);
+    let oh = build(&text, &HolSpec::None).ok_or_else(|| format!("{} rules rejected by OpeningHours::parse", k + 1))?;
+    let norm = guarded(|| oh.normalize()).map_err(|p| format!("normalize panicked on {} rules: {p}", k + 1))?;
+    // days: for sampled rules (first, last, around every power of two) the first matching weekday of
+    // their year, the Monday..Wednesday of that week and of the following one
+    let mut idx: Vec<usize> = vec![0, k / 2, k.saturating_sub(1), k.saturating_sub(2)];
+    let mut p = 1;
+    while p <= k {
+        idx.extend([p - 1, p, p + 1]);
+        p *= 2;
+    }
+    let mut days = Vec::new();
+    for i in idx.into_iter().filter(|i| *i < k) {
+        let wd = [Weekday::Mon, Weekday::Tue, Weekday::Wed, Weekday::Thu, Weekday::Fri, Weekday::Sat, Weekday::Sun][i % 7];
+        let mut d = NaiveDate::from_ymd_opt(1900 + i as i32, 1, 2).unwrap();
+        while d.weekday() != wd {
+            d = d.succ_opt().unwrap();
+        }
+        for off in -7..=9 {
+            days.push(d + Duration::days(off));
+        }
+    }
+    days.retain(|d| dates::in_range(*d) && *d != dates::min_day());
+    days.sort();
+    days.dedup();
+    if let Some((_, diff)) = evalcmp::first_difference(&oh, &norm, &days, false)? {
+        let n = norm.to_string();
+        return Err(format!("{} rules ({k} pairwise different ones and a late overlapping rule, variant {variant}): the normal form ({} rules, ends with {:?}) evaluates differently {diff} (original vs normalized)", k + 1, n.matches(';').count() + n.matches(',').count() + 1, &n[n.len().saturating_sub(60)..]));
+    }
+    Ok(days.len())
+}
+
+fn many_rules(args: &Args, rep: &mut Report) {
+    let mut ks: Vec<usize> = (1..=64).collect();
+    for e in 7..=12 {
+        ks.extend([(1usize << e) - 1, 1 << e, (1 << e) + 1]);
+    }
+    let mut idx = 0u64;
+    for k in ks {
+        for variant in 0..3u64 {
+            // rules joined by ';' make the paving grow with every rule (7 s at 513 rules, 46 s at 1025,
+            // 3 min at 2049, 12 min at 4097): those variants stop at 257 rules in the quick tier and at
+            // 2049 in the thorough one; the all-additional variant climbs the whole ladder
+            if variant != 0 && k > if args.thorough() { 2049 } else { 257 } {
+                continue;
+            }
+            idx += 1;
+            if (idx - 1) % args.of.max(1) != args.worker {
+                continue;
+            }
+            rep.evaluations += 1;
+            rep.begin(&format!("many rules: K = {k}, variant {variant}"));
+            match check_many_rules(k, variant) {
+                Ok(_) => {
+                    rep.count("many_rules_expressions");
+                    rep.max("many_rules_max_rules", k as u64 + 1);
+                }
+                Err(msg) => {
+                    rep.violation("normalization_changes_meaning", msg, json!({"many_rules": k, "variant": variant}), None);
+                    if rep.full() {
+                        return;
+                    }
+                }
+            }
+        }
+    }
+}
+
 pub fn run(args: &Args, rep: &mut Report) {
+    many_rules(args, rep);
+    if rep.full() {
+        return;
+    }
     let n = args.cases(360_000, 3_000_000);
     let sweep = if args.thorough() { 800 } else { 0 };
     // combination grid: pairs / triples of canonical rules over plain and wrapping ranges
@@ -187,6 +283,13 @@ pub fn run(args: &Args, rep: &mut Report) {
 }
 
 pub fn replay(args: &Args, case: &Value, rep: &mut Report) {
+    if let Some(k) = case["many_rules"].as_u64() {
+        rep.evaluations += 1;
+        if let Err(msg) = check_many_rules(k as usize, case["variant"].as_u64().unwrap_or(0)) {
+            rep.violation("normalization_changes_meaning", msg, case.clone(), None);
+        }
+        return;
+    }
     let text = case_expr(case);
     let hol = case_hol(case);
     rep.evaluations += 1;
